@@ -4,7 +4,7 @@
    The model (Pbf/Model.v) is a hand transcription of /repo/osmpbf/decode_data.go at
    message-tree level, tied to the implementation by correspondence (harness/cmd/c08). *)
 From Coq Require Import ZArith List Bool.
-From Verif Require Import Base.Int64 Pbf.Tree Pbf.Model Pbf.Spec Pbf.ProofsIndep Pbf.ProofsFilter Pbf.ProofsDecode Pbf.ProofsDense Pbf.ProofsAll Pbf.Arena Pbf.ProofsArena.
+From Verif Require Import Base.Int64 Pbf.Tree Pbf.Model Pbf.Spec Pbf.ProofsIndep Pbf.ProofsFilter Pbf.ProofsDecode Pbf.ProofsDense Pbf.ProofsAll Pbf.Arena Pbf.ProofsArena Pbf.ProofsFile C01.Compose.
 Import ListNotations.
 Open Scope Z_scope.
 
@@ -93,3 +93,32 @@ Example C08_witness_arena :
   | _ => False
   end.
 Proof. vm_compute. split; reflexivity. Qed.
+
+(* 6. COMPOSITION WITH C02 (C01/Compose.v), with skip flags and filters: the pipeline LTS of
+      coq/theories/Pipeline instantiated with the configured block decoder (block i = the positions of
+      the kept elements of block i; sound for every decoder state, see C01_pipeline_instantiation_sound).
+      For every configuration c, every n >= 1 and every schedule the delivered objects are a prefix of
+      filter (keeps c) (elements_file f), and a completed run delivers exactly that sequence with
+      Err() = nil.  Uses C02_delivered_is_prefix / C02_completes. *)
+Theorem C08_pipeline_delivers_filtered_prefix : forall c f n budget s,
+  valid_file f = true -> (1 <= n)%nat -> Compose.PB.reach (pcfg n budget (inst c f)) s ->
+  exists t, map (lab c f) (Compose.PL.delivered s) ++ t = filter (keeps c) (elements_file f).
+Proof. exact delivered_prefix_of_elements. Qed.
+Print Assumptions C08_pipeline_delivers_filtered_prefix.
+
+Theorem C08_pipeline_scans_filtered_prefix_every_schedule : forall c f n budget sched,
+  valid_file f = true -> (1 <= n)%nat ->
+  exists t, map (lab c f)
+              (Compose.PO.scan_vals (snd (Compose.PL.run (pcfg n budget (inst c f)) sched
+                                                         (Compose.PL.init (pcfg n budget (inst c f)))))) ++ t
+            = filter (keeps c) (elements_file f).
+Proof. exact scans_prefix_of_elements. Qed.
+Print Assumptions C08_pipeline_scans_filtered_prefix_every_schedule.
+
+Theorem C08_pipeline_completed_run_filtered : forall c f n budget s,
+  valid_file f = true -> (1 <= n)%nat -> Compose.PB.reach (pcfg n budget (inst c f)) s ->
+  Compose.PL.closed s = false -> Compose.PL.pcancelled s = false -> Compose.PL.s_err s <> 0%Z ->
+  map (lab c f) (Compose.PL.delivered s) = filter (keeps c) (elements_file f)
+  /\ Compose.PL.s_err s = Compose.PL.eEOF /\ Compose.PL.err_value s = 0%Z.
+Proof. exact completed_run_delivers_elements. Qed.
+Print Assumptions C08_pipeline_completed_run_filtered.
